@@ -92,12 +92,12 @@ class Harness:
         k = e["kind"]
         cbs = {}
         if k == "neighbors" and e.get("ff"):
-            cbs["filterfunc"] = CB("filterfunc", C.NB_FILTERS[e["ff"]])
+            cbs["filterfunc"] = CB("filterfunc", C.nb_filter(e["ff"]))
         if k == "find_links" and e.get("ff"):
             cbs["filterfunc"] = CB("filterfunc", C.FL_FILTERS[e["ff"]])
         if k == "trav":
             if e.get("ffv"):
-                cbs["ff_via"] = CB("ff_via", C.NB_FILTERS[e["ffv"]])
+                cbs["ff_via"] = CB("ff_via", C.nb_filter(e["ffv"]))
             if e.get("ffr"):
                 cbs["ff_result"] = CB("ff_result", C.RESULT_FILTERS[e["ffr"]])
         if k == "basic_render":
@@ -236,13 +236,51 @@ class Harness:
         return {"nodes": [list(n) for n in nodes], "edges": [list(x) for x in edges]}
 
 
-def deep_snapshot(ex):
+def deep_snapshot(ex, flag=False):
+    """
+    Everything observable: structure through public accessors, the set of
+    instance attribute names and the public values of every object, and --
+    under the cache flag of the triple -- what neighbors() answers for every
+    vertex in every direction (a read-only call must not change what later
+    reads return, e.g. by reordering a memoised list).
+    """
     w = ex.w
+    seams.set_flag(False)
     snap = w.snapshot()
     for lab, d in snap.items():
         obj = w.objs[lab]
         d["names"] = sorted(vars(obj))
         d["attrs"] = {k: ex.norm(v) for k, v in sorted(public_attrs(obj).items())}
+    seams.set_flag(flag)
+    try:
+        for lab, d in snap.items():
+            if d["k"] not in "vu":
+                continue
+            obj = w.objs[lab]
+            answers = []
+            for dname, unk in (
+                ("fwd", helpers.LNK_UNKNOWN_ERROR),  # the defaults, as renderers and searches call it
+                ("fwd", helpers.LNK_UNKNOWN_NEIGHBOR),
+                ("any", helpers.LNK_UNKNOWN_NEIGHBOR),
+                ("back", helpers.LNK_UNKNOWN_NEIGHBOR),
+            ):
+                try:
+                    answers.append(
+                        ex.norm(
+                            list(
+                                helpers.neighbors(
+                                    obj,
+                                    direction_sensitive=O.DIRS[dname],
+                                    unknown_handling=unk,
+                                )
+                            )
+                        )
+                    )
+                except Exception as exc:  # pylint: disable=broad-except
+                    answers.append("!" + type(exc).__name__)
+            d["neighbors"] = answers
+    finally:
+        seams.set_flag(False)
     return snap
 
 
@@ -433,7 +471,7 @@ class C13(engine.Property):
         flag = bool(op.get("cache"))
         seams.set_flag(False)
         try:
-            s0 = deep_snapshot(st.ex)
+            s0 = deep_snapshot(st.ex, flag)
             self._shape_probes(st, entry, s0)
             cbs = h.make_callbacks()
             seams.set_flag(flag)
@@ -451,7 +489,7 @@ class C13(engine.Property):
             st.enumerated += 1
             st.last_triple = engine.h64(engine.jdump([s0, entry, flag]))
             counts = {name: cb.count for name, cb in cbs.items()}
-            s1 = deep_snapshot(st.ex)
+            s1 = deep_snapshot(st.ex, flag)
             if s1 != s0:
                 return {"R": R, "N": counts}, self._changed(
                     "C13/graph-changed-by-fault-free-call", entry, s0, s1, None, None
@@ -469,7 +507,7 @@ class C13(engine.Property):
                         total += 1
                         s["fault:callback-raised:" + name] += 1
                         s["probe:callback-faulted:" + name] += 1
-                    s2 = deep_snapshot(st.ex)
+                    s2 = deep_snapshot(st.ex, flag)
                     if s2 != s0:
                         return {"R": R, "N": counts}, self._changed(
                             f"C13/graph-changed-after-callback-fault:{entry['kind']}:{name}",
@@ -494,7 +532,7 @@ class C13(engine.Property):
                                 "faulted_call_ended": _short(out_k),
                             },
                         )
-                    s3 = deep_snapshot(st.ex)
+                    s3 = deep_snapshot(st.ex, flag)
                     if s3 != s0:
                         return {"R": R, "N": counts}, self._changed(
                             "C13/graph-changed-by-clean-rerun", entry, s0, s3, name, k
